@@ -1,8 +1,8 @@
 #!/bin/bash
-# Runs every seeded change against its target property's quick check (scratch worktrees; /repo untouched).
-# usage: tools/seeded_matrix.sh [parallelism]   -> writes seeded/RESULTS.txt
+# Runs seeded changes against their target property's quick check (scratch worktrees; /repo untouched).
+# usage: tools/seeded_matrix.sh [parallelism] [glob-of-variants, default all] [outfile]
 cd /verif
-P=${1:-4}
-ls -d seeded/C??-? | xargs -P $P -I{} bash -c 'd={}; id=$(basename $d | cut -d- -f1); tools/try_patch.sh $d/patch.diff $id 2>&1 | tail -1' | sort > seeded/RESULTS.txt
-cat seeded/RESULTS.txt
-echo "caught: $(grep -c "rc=1" seeded/RESULTS.txt) / $(wc -l < seeded/RESULTS.txt)"
+P=${1:-4}; G=${2:-"seeded/C??-?"}; OUT=${3:-seeded/RESULTS.txt}
+ls -d $G | xargs -P $P -I{} bash -c 'd={}; id=$(basename $d | cut -d- -f1); tools/try_patch.sh $d/patch.diff $id 2>&1 | tail -1' | sort > $OUT
+cat $OUT
+echo "caught: $(grep -c "rc=1" $OUT) / $(wc -l < $OUT)"
